@@ -5,7 +5,7 @@
 From Coq Require Import List ZArith QArith Bool.
 From PV Require Import lib.Sx lib.Str lib.Result model.SccTime model.SccStash model.SccPopon spec.SpecSccTime.
 From PV Require Import model.SccDecoder spec.Spec608 spec.SpecScc05.
-From PV Require Import proofs.SccTimeFacts proofs.SccStashFacts proofs.SccPoponFacts proofs.SccPoponStage1 proofs.SccPoponTimesFacts proofs.SccPoponStage4.
+From PV Require Import proofs.SccTimeFacts proofs.SccStashFacts proofs.SccPoponFacts proofs.SccPoponStage1 proofs.SccPoponTimesFacts proofs.SccPoponStage4 proofs.SccPoponStage3 proofs.SccPoponStage6.
 Import ListNotations.
 
 (* the string surgery of get_time (`_time[:-2] + str(int(_time[-2:]) + frames)`), the regex prefix match, the split
@@ -104,6 +104,21 @@ Theorem C06_popon_stage4_spans_partial : forall d off segs evs,
   spans_of (read off (map (seg_line d) segs)) = expected_with join_threshold evs.
 Proof. exact popon_stage4_spans. Qed.
 Print Assumptions C06_popon_stage4_spans_partial.
+
+(* ... and for whole programs whose loads have SEVERAL rows (a load whose rows are not adjacent yields several captions
+   with identical times): the span of the i-th load, repeated once per caption of that load, is the i-th span of the
+   statement; in particular the screens (runs of identical spans) are exactly the expected spans *)
+Theorem C06_popon_stage6_spans_partial : forall d off segs evs,
+  forallb pseg_ok segs = true -> res_map (pseg_event d off) segs = Ok evs -> positive evs ->
+  spans_of (read off (map (pseg_line d) segs))
+  = rmap (fun spans => flat_map bspans (combine (ploads_of segs) spans)) (expected_with join_threshold evs).
+Proof. exact popon_stage6_spans_mult. Qed.
+Print Assumptions C06_popon_stage6_spans_partial.
+Theorem C06_popon_stage6_screens_partial : forall d off segs evs,
+  forallb pseg_ok segs = true -> res_map (pseg_event d off) segs = Ok evs -> positive evs ->
+  rmap screens (spans_of (read off (map (pseg_line d) segs))) = rmap screens (expected_with join_threshold evs).
+Proof. exact popon_stage6_spans. Qed.
+Print Assumptions C06_popon_stage6_screens_partial.
 
 (* known defect #20 (offset beyond the timecodes): instants floored to 0 collide with the end == 0 sentinel *)
 Theorem C06_end_zero_sentinel_refuted :
